@@ -351,12 +351,14 @@ def thread_round(acc, shard, r, tier, nthreads=16):
 
     def work(text):
         d = mappyfile.loads(text, expand_includes=False)
-        out = mappyfile.dumps(d)
+        # the same text with bookkeeping on: comment collection and position data are per-call state too
+        dc = mappyfile.loads(text, expand_includes=False, include_comments=True, include_position=True)
+        out = mappyfile.dumps(d) + "\n--\n" + mappyfile.dumps(dc)
         msgs = mappyfile.validate(d) if d["__type__"] == "map" else []
         lists = collect_lists(d)
         found = [mappyfile.findall(lst, "name", "x") for _, lst in lists]
         uniq = [mappyfile.findunique(lst, "status") if all(isinstance(o.get("status", ""), str) for o in lst) else None for _, lst in lists]
-        return (refdict.snapshot(d), out, [m["message"] + m["error"] for m in msgs], [len(f) for f in found], uniq)
+        return ((refdict.snapshot(d), refdict.snapshot(dc)), out, [m["message"] + m["error"] for m in msgs], [len(f) for f in found], uniq)
 
     seq = {}
     for t in set(texts):
